@@ -809,10 +809,15 @@ ServeStopEnd ==
   /\ srv' = [srv EXCEPT !.stopping = ""]
   /\ UNCHANGED <<cfg, calls, pm, fsm, conn, dial, now, out, gh>>
 
-ServeRet ==
+ServeDone ==           \* Serve's deferred function: all peers stopped, doneServingCh closed
   /\ srv.servePc = "stopping" /\ srv.stopping = ""
   /\ \A p \in srv.reg : pm[p].pc \in {"done", "off"}
-  /\ srv' = [srv EXCEPT !.servePc = "ret", !.serving = FALSE, !.done = TRUE, !.lock = ""]
+  /\ srv' = [srv EXCEPT !.servePc = "returning", !.serving = FALSE, !.done = TRUE, !.lock = ""]
+  /\ UNCHANGED <<cfg, calls, pm, fsm, conn, dial, now, out, gh>>
+
+ServeRet ==            \* Serve returns to its caller (concurrently with Close returning)
+  /\ srv.servePc = "returning"
+  /\ srv' = [srv EXCEPT !.servePc = "ret"]
   /\ out' = Ret(out, "", "serve", 0, IF srv.lisErr THEN "listener" ELSE "ErrServerClosed")
   /\ calls' = Without(calls, srv.serveCall)
   /\ UNCHANGED <<cfg, pm, fsm, conn, dial, now, gh>>
@@ -872,7 +877,7 @@ CallNext(id) ==
   \/ CloseBegin(id) \/ CloseEnd(id) \/ ServeBegin(id) \/ WriteCall(id) \/ WriteRet(id)
 
 SrvNext ==
-  \/ ServeSeesClose \/ ServeSeesLisErr \/ ServeLisClosed \/ ServeStopLock \/ ServeStopEnd \/ ServeRet
+  \/ ServeSeesClose \/ ServeSeesLisErr \/ ServeLisClosed \/ ServeStopLock \/ ServeStopEnd \/ ServeDone \/ ServeRet
   \/ AcceptTake \/ AcceptLock
   \/ \E p \in Peers : ServeStopBegin(p)
 
